@@ -963,6 +963,9 @@ class Interp:
         r = self.stubs.binop(op, a, b, ctx)
         if r is not NotImplemented:
             return r
+        known = (type(None), bool, int, Fraction, str, tuple, list, dict, Qty, STime, SArr, Cx, V.Unit, z3.ExprRef)
+        if isinstance(a, known) and isinstance(b, known):
+            raise PyExc("TypeError", f"unsupported operand type(s) for {type(op).__name__}")
         raise Unsupported(f"binop {type(op).__name__} on {type(a).__name__},{type(b).__name__}")
 
     def compare(self, op, a, b, ctx):
